@@ -482,6 +482,12 @@ def builder_structs(tier):
     sp.append(Struct(32, [], default=0xdeadbeef, family='BLDX', has_builder=True))                 # no writable field at all
     sp.append(Struct(32, [Field([(0, 8)], 'n', access='r', family='BLDX')], default=0x12345678, family='BLDX', has_builder=True))
     out += sp
+    # struct visibility decides the visibility of the generated Partial<..> builder type
+    for k, st in enumerate(out):
+        if k % 5 == 2:
+            st.vis = 'pub(crate)'
+        elif k % 5 == 4:
+            st.vis = ''
     # field names that coincide with parameters / locals of the generated builder code, and raw identifiers
     fsn = []
     for j, nm in enumerate(TRICKY_NAMES[:16]):
